@@ -193,6 +193,10 @@ def names_of(p):
         return [n for it in p[2] for n in names_of(it)]
     if t in ("cons", "snoc", "frac", "cmp2"):
         return [p[1], p[2]]
+    if t in ("cons2", "snoc2"):
+        return [p[1], p[2], p[3]]
+    if t == "plus2":
+        return [p[1]]
     if t in ("plus", "times", "neg"):
         return [p[1]]
     if t == "plusl":
@@ -235,6 +239,13 @@ def src_of(p, top=False):
         return "(%s .+ %s)" % (p[1], p[2])
     if t == "snoc":
         return "(%s +. %s)" % (p[1], p[2])
+    # chains of one pattern operator group like the operator does in expressions: .+ to the right, +. and + to the left
+    if t == "cons2":
+        return "(%s .+ %s .+ %s)" % (p[1], p[2], p[3])
+    if t == "snoc2":
+        return "(%s +. %s +. %s)" % (p[1], p[2], p[3])
+    if t == "plus2":
+        return "(%s + %d + %d)" % (p[1], p[2], p[3])
     if t == "plus":
         return "(%s + %d)" % (p[1], p[2])
     if t == "plusl":
@@ -373,6 +384,29 @@ def match(p, v):
         if t == "cons":
             return {p[1]: es[0], p[2]: rebuild(k, es[1:])}
         return {p[1]: rebuild(k, es[:-1]), p[2]: es[-1]}
+    if t == "cons2":        # a .+ (b .+ t)
+        r1 = match(("cons", p[1], "_rest"), v)
+        if r1 in (FAIL, NA):
+            return r1
+        r2 = match(("cons", p[2], p[3]), r1.pop("_rest"))
+        if r2 in (FAIL, NA):
+            return r2
+        r1.update(r2)
+        return r1
+    if t == "snoc2":        # (t +. a) +. b
+        r1 = match(("snoc", "_init", p[3]), v)
+        if r1 in (FAIL, NA):
+            return r1
+        r2 = match(("snoc", p[1], p[2]), r1.pop("_init"))
+        if r2 in (FAIL, NA):
+            return r2
+        r1.update(r2)
+        return r1
+    if t == "plus2":        # (n + j) + k
+        r1 = match(("plus", "_mid", p[3]), v)
+        if r1 in (FAIL, NA):
+            return r1
+        return match(("plus", p[1], p[2]), r1["_mid"])
     if t in ("plus", "plusl"):
         n, kk = (p[1], p[2]) if t == "plus" else (p[2], p[1])
         if not is_num(v):
@@ -501,7 +535,8 @@ def pattern_pool(tier):
     pats += [("struct", "P", [N(0), N(1)]), ("struct", "P", [N(0), ("lit", cI(2), "2")]), ("struct", "P", [N(0)]), ("struct", "Q", [N(0)]),
              ("struct", "P", [N(0), ("seq", [N(1), N(2)], "comma")]), ("struct", "P", [("_",), ("_",)])]
     # operator patterns
-    pats += [("cons", "h", "t"), ("snoc", "t", "h"), ("plus", "n0", 1), ("plusl", 1, "n0"), ("plus", "n0", 5), ("times", "n0", 2), ("times", "n0", 3), ("times", "n0", 0),
+    pats += [("cons2", "h", "n0", "t"), ("snoc2", "t", "n0", "h"), ("plus2", "n0", 1, 2), ("plus2", "n0", 5, 1),
+             ("cons", "h", "t"), ("snoc", "t", "h"), ("plus", "n0", 1), ("plusl", 1, "n0"), ("plus", "n0", 5), ("times", "n0", 2), ("times", "n0", 3), ("times", "n0", 0),
              ("neg", "n0"), ("frac", "n0", "n1"), ("cmphole", 1, 9), ("cmphole", 0, 2), ("cmp2", "n0", "n1"),
              ("neglit", 1), ("neglit", 5), ("fraclit", "n0", 2), ("fraclit", "n0", 1), ("fraclit", "n0", 4), ("conslit", 1, "t"), ("conslit", 5, "t"),
              ("conslit", 9, "t"), ("snoclit", "t", 2), ("snoclit", "t", 9), ("seq", [N(0), ("neglit", 1)], "comma"), ("seq", [("fraclit", "n0", 2), N(1)], "comma")]
